@@ -26,6 +26,7 @@ mod p25;
 mod p29;
 mod p31;
 mod p08;
+mod pfromcst;
 mod p12;
 mod p13;
 mod p14;
